@@ -827,7 +827,9 @@ def oracle(case, obs):
         bad.append(('save-exception:' + obs['save_err'][0], 'save_config raised %s' % (obs['save_err'],)))
         return bad
     if 'reload_err' in obs:
-        if obs['reload_err'][0] != 'NotAChoice':
+        # (a value saved as it is in effect may be one that a model class refuses when it is constructed from the
+        # file, e.g. npv2pq = inf handed to int(): the refusal is the consumer's, as at first construction)
+        if obs['reload_err'][0] != 'NotAChoice' and not re.search(CONSUMER_ERRORS, str(obs['reload_err'][1])):
             bad.append(('reload-exception:' + obs['reload_err'][0], 'loading the saved file raised %s' % (obs['reload_err'],)))
         return bad
     saved = {s: dict(kvs) for s, kvs in obs['saved']}
